@@ -38,7 +38,7 @@ def _as_iterable(lines, how):
     if how == "islice":
         return itertools.islice(["x"] + list(lines) + ["y"], 1, 1 + len(lines))
     if how == "map":
-        return map(str, lines)
+        return map(lambda x: x, lines)
     if how == "file-object":
         return (ln.rstrip("\n") for ln in io.StringIO("".join(ln + "\n" for ln in lines)))
     if how == "deque":
